@@ -55,7 +55,11 @@ def run(ctx):
         if not bm or not isinstance(bm[0].args[0], ast.List):
             raise AnalysisError(f"{Cj}: bmat not found")
         rows = bm[0].args[0].elts
-        row0 = jr.families(rows[0]) | rr.families(rows[0])
+        row0 = set()
+        for e in (rows[0].elts if isinstance(rows[0], ast.List) else []):
+            fe = jr.families(e) | rr.families(e)
+            if len(fe) == 1:
+                row0 |= fe  # a block that is exactly one System matrix (W_g, W_c, W_N)
         for (w, wq) in PAIRS:
             in_res = w in fam
             in_K = wq in ksite[1]
